@@ -13,6 +13,11 @@ RULE = ("every instance of Extended.tla (TLC: curve-name permutations x stub/lis
         "expectation TLC computed (Trace_Extended).")
 
 
+SUFFIX = {"plain": "", "word": "xyz section", "under": "xyz_Information", "logdef": "og_Definition", "logpar": "og_Parameter",
+          "logdata": "og_Data | Log_Definition", "x_data": "ore_Data[1] | Core_Definition", "x_par": "ore_Parameter",
+          "x_def": "ore_Definition", "x_DATA": "ORE_DATA"}
+
+
 def name_of(n):
     return n[0] + (str(n[1]) if n[1] else "")
 
@@ -26,7 +31,7 @@ def run(ctx):
     if ctx.tier != "thorough":
         stack = [i for i in insts if i["kind"] == "stack"]
         nulls = [i for i in insts if i["kind"] == "null"]
-        rest = [i for i in insts if i["kind"] not in ("stack", "null")]
+        rest = [i for i in insts if i["kind"] not in ("stack", "null")]          # (unit, dtypes and all 480 routing instances)
         insts = rng.sample(stack, 1500) + rng.sample(nulls, 1500) + rest
     ctx.exhaustive = ctx.tier == "thorough"
     events = []
@@ -57,6 +62,24 @@ def run(ctx):
                 text = "~V\nVERS. 2.0:\nWRAP. NO:\n~W\nSTRT.FT 1:\nNULL. -999.25:\n~C\nDEPT.FT:\n~A\n1\n2\n"
                 las = lasio.read(text, index_unit=None if inst["arg"] == "none" else inst["arg"])
                 obs = "detect" if inst["arg"] == "none" and las.index_unit == "FT" else str(las.index_unit)
+            elif k == "route":
+                t = inst["title"]
+                title = "~" + (t["letter"].lower() if t["lower"] else t["letter"]) + SUFFIX[t["suffix"]]
+                isdata = inst["expect"][0] == "Data"
+                body = "1 2\n3 4\n" if isdata else "XA. 7 : d\n"
+                text = "~Version\nVERS. %s : v\nWRAP. NO : w\n%s\n%s" % (inst["vers"], title, body)
+                las = lasio.read(text)
+                obs = ["?", "?"]
+                if isdata and len(las.curves) == 2 and [list(c.data) for c in las.curves] == [[1.0, 3.0], [2.0, 4.0]]:
+                    obs = ["Data", "data"]
+                else:
+                    for key, sec in las.sections.items():
+                        name = key if key in ("Version", "Well", "Curves", "Parameter", "Other") else ("own" if key == title[1:] else "?" + key)
+                        if isinstance(sec, str):
+                            if sec.strip() == body.strip():
+                                obs = ["Other", name]
+                        elif any(it.original_mnemonic == "XA" for it in list.__iter__(sec)):
+                            obs = ["Items", name]
             elif k == "dtypes":
                 spec = inst["spec"]
                 kinds = {"f": float, "i": int, "U": str}
